@@ -730,8 +730,8 @@ def map_phase(chk, build, sc, cat, good):
                 while mx * 3 > (cap >> 2) and g < 40:     # growth rule of lib/srfi/69/hash.c, only for the coverage figure
                     cap *= 2; g += 1
                 resizes += g
-                if hist["no"] <= 2 and res is runs[0]:
-                    chk.sample({"kind": "history", "front_end": "srfi " + hist["fe"], "table": hist["cfg"], "ops": len(hist["ops"]),
+                if sum(1 for x in chk.cov["samples"] if isinstance(x, dict) and x.get("kind") == "history") < 2:
+                    chk.sample({"kind": "history", "front_end": "srfi " + hist["fe"], "table": hist["cfg"], "ops": len(hist["ops"]), "origin": hist.get("origin", "seeded"),
                                 "first_events": [e for e in evs if e.get("e") not in ("Term", "Inst")][30:38]})
                 continue
             if r.error and "Postcondition" not in r.error and not rejected_at(r):
